@@ -52,6 +52,8 @@ pub struct PathProbe {
     pub sending_ecn: bool,
     pub rtt_us: u64,
     pub pto_base_us: u64,
+    /// RTT estimator (latest, smoothed, variance, minimum) in nanoseconds
+    pub rtt_parts_ns: (u64, Option<u64>, u64, u64),
 }
 
 /// Projection of one stream's send half
